@@ -1,4 +1,5 @@
 import GapicModel.Driver.Base
+import GapicModel.Driver.AddressT
 import GapicModel.Driver.C01
 import GapicModel.Driver.C02
 import GapicModel.Driver.C03
@@ -33,7 +34,7 @@ open Lean GapicModel
 namespace GapicModel.Driver
 
 def allOps : List (String × (Json → Except String Json)) :=
-  [("regex", opRegex)] ++ opsC01 ++ opsC02 ++ opsC03 ++ opsC04 ++ opsC05 ++ opsC06 ++ opsC07 ++ opsC08 ++ opsC09 ++ opsC10 ++ opsC11 ++ opsC12 ++ opsC13 ++ opsC14 ++ opsC15 ++ opsC16 ++ opsC17 ++ opsC18 ++ opsC19 ++ opsC20 ++ opsFuncs ++ opsPyRt
+  [("regex", opRegex)] ++ opsAddressT ++ opsC01 ++ opsC02 ++ opsC03 ++ opsC04 ++ opsC05 ++ opsC06 ++ opsC07 ++ opsC08 ++ opsC09 ++ opsC10 ++ opsC11 ++ opsC12 ++ opsC13 ++ opsC14 ++ opsC15 ++ opsC16 ++ opsC17 ++ opsC18 ++ opsC19 ++ opsC20 ++ opsFuncs ++ opsPyRt
 
 def dispatch (j : Json) : Except String Json := do
   let op ← (← j.getObjVal? "op").getStr?
